@@ -56,6 +56,21 @@ def _on_alarm(signum, frame):
     raise CallTimeout()
 
 
+# where the last exception that escaped a recorded call was raised ("file.py:function" of the
+# innermost frame): known findings about crashes are identified by their call site
+LAST_EXC = {"site": ""}
+
+
+def _raise_site(e):
+    import traceback
+
+    tb = traceback.extract_tb(e.__traceback__)
+    if not tb:
+        return ""
+    fr = tb[-1]
+    return "%s:%s" % (_os.path.basename(fr.filename), fr.name)
+
+
 def call_recorded(model, fn, abort_at=None, light=False):
     """Run fn() with an observer installed; returns (events, ret)."""
     import signal
@@ -78,6 +93,7 @@ def call_recorded(model, fn, abort_at=None, light=False):
         ret = "timeout"
     except Exception as e:  # a crash of the library is an observation, judged by TLC
         ret = "exc:" + type(e).__name__
+        LAST_EXC["site"] = _raise_site(e)
     finally:
         if timed:
             signal.setitimer(signal.ITIMER_REAL, 0)
@@ -123,11 +139,13 @@ def run_simulate(model, opts=None, init_state=True, init_log=True, abort_at=None
         initialize_log_info=init_log,
         unit_time=o.get("unit", 1),
     )
+    LAST_EXC["site"] = ""
     ev, ret = call_recorded(model, lambda: model.project.simulate(**kw), abort_at=abort_at)
+    site = LAST_EXC["site"]
     o2 = copy.deepcopy(o)
     o2["initState"], o2["initLog"] = init_state, init_log
     return {"op": "simulate", "opts": o2, "args": {"cmp": 0, "plainTasks": False}, "obs": {}, "ev": annotate(ev), "ret": ret,
-            "final": snapshot(model)}
+            "exc_site": site, "final": snapshot(model)}
 
 
 def run_case_simulate(cfg):
@@ -281,6 +299,7 @@ def run_history(spec):
             m.cfg = cfg
             changed_cfg = True
         light = bool(op.get("light"))
+        LAST_EXC["site"] = ""
         if kind == "rebuild":
             m = Model(cfg, plain=bool(op.get("plain", plain)))   # (of the possibly edited cfg)
         elif kind == "snapshot":
@@ -309,6 +328,25 @@ def run_history(spec):
             m.teams[-1].append_targeted_task(task)
             m.workers.append(wk)
             m.reindex()
+            changed_cfg = True
+        elif kind == "add_team_target":
+            # the user edits the organization between two runs: team `team` now also targets `task`
+            tm, ti = op["team"], op["task"]
+            m.teams[tm - 1].append_targeted_task(m.tasks[ti - 1])
+            cfg = _json.loads(_json.dumps(cfg))
+            cfg["tasks"][ti - 1]["teams"].append(tm)
+            m.cfg = cfg
+            changed_cfg = True
+        elif kind == "edit_abs":
+            # the user edits the absence calendar of one worker / facility between two runs
+            cfg = _json.loads(_json.dumps(cfg))
+            if op["who"] == "worker":
+                m.workers[op["i"] - 1].absence_time_list = list(op["L"])
+                cfg["workers"][op["i"] - 1]["abs"] = list(op["L"])
+            else:
+                m.facs[op["i"] - 1].absence_time_list = list(op["L"])
+                cfg["facs"][op["i"] - 1]["abs"] = list(op["L"])
+            m.cfg = cfg
             changed_cfg = True
         elif kind == "add_dep":
             # the user edits the workflow between two runs: a new dependency pred -> succ
@@ -364,7 +402,8 @@ def run_history(spec):
             L = list(op["L"])
             if op.get("rel"):
                 # indices relative to the current end of the logs (0 = first step beyond the end)
-                L = [m.project.time + x for x in L]
+                # (a position before step 0 is not a step index: dropped, not passed on)
+                L = [m.project.time + x for x in L if m.project.time + x >= 0]
                 rec["args"]["L"] = L
             ev, rec["ret"] = call_recorded(m, lambda: m.project.insert_absence_time_list(L))
         elif kind == "saveload":
@@ -394,6 +433,7 @@ def run_history(spec):
         else:
             raise ValueError("unknown op %r" % kind)
         rec["final"] = snapshot(m)
+        rec["exc_site"] = LAST_EXC["site"] if str(rec["ret"]).startswith("exc:") else ""
         if changed_cfg:
             rec["cfg"] = cfg
         runs.append(rec)
